@@ -22,9 +22,9 @@ TECH = {
     'C06': "static analysis: save/restore protocol by must-pass-through under fault model M1, writer/reader table agreement, time-base unit typing, timer-handle clearing before delivery; abstract interpretation of the expiry decision on a (expiration, stop time, now, initialised) grid",
     'C07': "static analysis: non-emptiness domain for partial operations on the alarm registry, must-call registry protocol; abstract interpretation of interval membership (__contains__, 589 cases per class), of the scheduler's add/remove registry (all call sequences up to length 3) and of the clock-jump guard on impossible delays; who-may-call rule for the registry (reconfiguration only)",
     'C08': "static analysis: CFG with exceptional and cancellation edges (M1/M1c), linear task ownership (must-use), who-may-call, super-chain, docs<->code; abstract interpretation of Circuit.check_not_finalized (4 cases) with dominance of the gate in every mutator",
-    'C09': "static analysis: write-once ownership with dominance, no-swallow handler classification against a frozen sink table; abstract interpretation of SBlock.event (22 scenarios: error raised inside a handler -> abort with cause and re-raise; call failure and unknown event -> no abort)",
+    'C09': "static analysis: write-once ownership with dominance, no-swallow handler classification against a frozen sink table; abstract interpretation of SBlock.event (23 scenarios: error raised inside a handler -> abort with cause and re-raise; call failure and unknown event -> no abort)",
     'C10': "static analysis: loop-cycle must-pass-through (counter/limit), dominance of resets by the idle point, constant folding; multi-site removed=>evaluated rule shared with C01; abstract interpretation of SBlock.set_output for 'queued before any delivery'; path rule 'counter restarts at every idle'; wiring-completeness rules shared with C01/C15",
-    'C11': "static analysis: acquire/release pairing on all exits under the any-statement-may-raise fault model M2, ownership and who-may-lift tables, no-swallow table over the may-deliver call closure; abstract interpretation of FSM._ctx_event for the guard flag on every exit and the recursion window; abstract interpretation of SBlock.event (22 scenarios: refusal keeps the outer guard, guard released after every outcome, EventCond resolution incl. missing value, initialising event let through)",
+    'C11': "static analysis: acquire/release pairing on all exits under the any-statement-may-raise fault model M2, ownership and who-may-lift tables, no-swallow table over the may-deliver call closure; abstract interpretation of FSM._ctx_event for the guard flag on every exit and the recursion window; abstract interpretation of SBlock.event (23 scenarios: refusal keeps the outer guard, guard released after every outcome, EventCond resolution incl. missing value, initialising event let through)",
     'C12': "static analysis: linear use of dequeued items (at least once and at most once, pruned path search), outcome-arm classification, counter pairing under M2, mode-shape rules; explicit-raise escape analysis on the M1 CFG of the output and control coroutines; who-may-call for the uncounted coroutine",
     'C13': "static analysis: finite abstract evaluation over the 13 weak orderings (exhaustive), literal-table agreement; abstract interpretation of __contains__ per concrete class (one and two ranges), fresh-list rule for the exporters; abstract interpretation of the date / date-time string parser (_convert_str with _match_pattern and the module's own regular expressions matched by CPython's re) on 20 well-formed and 22 malformed strings",
     'C14': "static analysis: dominance of the is_ready gate, two-point string-prefix dataflow domain, who-may-pass _reserved; abstract interpretation of Event.send (source item), CFG rule 'recorded task implies recorded error at every exit' under M1, result-passing rule for event() wrappers; signature agreement of every event() definition (positional-only type, **data)",
